@@ -24,7 +24,19 @@ def run(ctx):
     try:
         for t in range(ntrees):
             r = ctx.rng.fork()
-            snap = corr.Snap(scratch, fstree.gen_tree(r, max_entries=r.choice([4, 12, 30]), kinds="fdl"), subdir="t%d" % t)
+            ents = fstree.gen_tree(r, max_entries=r.choice([4, 12, 30]), kinds="fdl")
+            if t % 4 == 1:
+                # key tuples that read alike when written one after the other: (dir, ext) = (./a, b) and (./ab, ""),
+                # (ext, length(name)) = (c1, 4) and (c, 14), (length(name), ext) = (1, 2x) ~ (12, x), (uid, length) ...
+                have = {e["path"] for e in ents}
+                if "kk" not in have:
+                    ents.append({"path": "kk", "kind": "d", "mode": 0o755, "mtime": 1700000000})
+                    for pth, kind in [("a", "d"), ("ab", "d"), ("a/x.b", "f"), ("ab/y", "f"), ("ab/z.b", "f"), ("x.c1", "f"),
+                                      ("aaaaaaaaaaaa.c", "f"), ("q.2x", "f"), ("qqqqqqqqqq.x", "f"), ("a/1", "f"), ("a1", "d")]:
+                        ents.append({"path": "kk/" + pth, "kind": kind, "mode": 0o755 if kind == "d" else 0o644, "mtime": 1700000000,
+                                     **({"size": r.choice([1, 2, 5])} if kind == "f" else {})})
+                ents.sort(key=lambda e: (e["path"].count("/"), e["path"]))
+            snap = corr.Snap(scratch, ents, subdir="t%d" % t)
             for _ in range(per_tree):
                 gk = r.sample(GKEYS, r.range(1, 2))
                 aggs = r.sample(AGGS, r.range(1, 3))
